@@ -67,6 +67,9 @@ type PkgDesc struct {
 	Unique           bool   `json:"unique,omitempty"`
 	// ConfigRequired makes config.label a required property.
 	ConfigRequired bool `json:"configRequired,omitempty"`
+	// SchemaVariant > 0 adds the config property "extra" (string) with the default "d<variant>" to the manifest's schema:
+	// packages of the same name may differ in their configuration schema (an update that adds a property).
+	SchemaVariant int `json:"schemaVariant,omitempty"`
 	// Broken injects a structural / validation defect: "", "no-manifest", "two-manifests", "bad-phase",
 	// "missing-phase-annotation", "duplicate-object", "bad-yaml", "bad-template", "missing-key-template"
 	Broken string `json:"broken,omitempty"`
@@ -81,6 +84,9 @@ type PkgCtx struct {
 	KubeVersion string `json:"kubeVersion"`
 	PkgName     string `json:"pkgName"`
 	PkgNS       string `json:"pkgNS"`
+	// ExtraDefault is filled in by Expected(): the value config.extra has after admission (schema default), "" if the schema
+	// has no such property (pruned).
+	ExtraDefault string `json:"-"`
 }
 
 func (c PkgCtx) evalExpr(e string, conds map[string]bool) bool {
@@ -126,6 +132,11 @@ func (o PkgObj) templatedValue(c PkgCtx) (string, string) {
 		return `{{ .package.metadata.name | toJson }}`, c.PkgName
 	case "upper":
 		return `{{ .config.label | upper }}`, strings.ToUpper(c.Label)
+	case "extra":
+		if c.ExtraDefault == "" {
+			return `{{ get .config "extra" | default "none" }}`, "none"
+		}
+		return `{{ get .config "extra" | default "none" }}`, c.ExtraDefault
 	}
 	return "", ""
 }
@@ -267,6 +278,9 @@ func (d PkgDesc) ManifestYAML() string {
 		sb.WriteString("  availabilityProbes:\n  - probes:\n    - condition:\n        type: Available\n        status: \"True\"\n    selector:\n      kind:\n        group: verif.example\n        kind: Widget\n")
 	}
 	sb.WriteString("  config:\n    openAPIV3Schema:\n      type: object\n      properties:\n        label:\n          type: string\n        flag:\n          type: boolean\n")
+	if d.SchemaVariant > 0 {
+		sb.WriteString(fmt.Sprintf("        extra:\n          type: string\n          default: d%d\n", d.SchemaVariant))
+	}
 	if d.ConfigRequired {
 		sb.WriteString("      required:\n      - label\n")
 	}
@@ -385,6 +399,10 @@ func (d PkgDesc) ExpectInvalid() bool {
 
 // Expected is R-render: the ObjectSetTemplateSpec phases the package must render to, as JSON shape.
 func (d PkgDesc) Expected(c PkgCtx) []any {
+	c.ExtraDefault = ""
+	if d.SchemaVariant > 0 {
+		c.ExtraDefault = fmt.Sprintf("d%d", d.SchemaVariant)
+	}
 	conds := map[string]bool{}
 	for _, cd := range d.Conds {
 		conds[cd.Name] = c.evalExpr(cd.Expr, conds)
